@@ -166,7 +166,12 @@ func checkRecursiveTemplate(ctx *Ctx, r *Report, ts *tmplSet, rt recTemplate, va
 	}
 	// nullable (validation, equality)
 	if rt.define != recStrict.define {
-		if b := find(func(c string) bool { return strings.TrimSpace(c) == ".Nullable" }); b == nil {
+		// the only values the nullable branch may leave to the other branches are references to enum members, which are
+		// declared by value (skeleton/nil-test-excludes-constant-ref)
+		if b := find(func(c string) bool {
+			c = strings.Join(strings.Fields(c), " ")
+			return c == ".Nullable" || c == "and .Nullable (not .Type.IsConstantRef)"
+		}); b == nil {
 			r.Bad("traverse/template-reach", rt.define+" nullable branch", token.NoPos, file+": no branch for nullable values")
 		} else {
 			ok := false
@@ -279,6 +284,7 @@ func checkC08(ctx *Ctx, r *Report) {
 	r.Floor("depth-named loops in recursive templates", 4)
 	r.Floor("branches of recursive templates", 14)
 	c08ResolvesToConstraints(ctx, r)
+	c13NilTestExcludesConstantRefs(ctx, r, ts, recValidate.define)
 	c08StrictSkeleton(ctx, r, ts)
 	c08WholesaleLeafOnly(ctx, r)
 	c09OperatorTable(ctx, r)
@@ -326,6 +332,8 @@ func checkC13(ctx *Ctx, r *Report) {
 	c13NilSymmetry(ctx, r, ts, ifChain(top))
 	c13OperandSymmetry(ctx, r, ts, ifChain(top))
 	c13HuntedRules(ctx, r, ts, ifChain(top))
+	c13NilTestExcludesConstantRefs(ctx, r, ts, recEquality.define)
+	c13NumericUnionBranches(ctx, r, ts)
 	for i, b := range ifChain(top) {
 		if b.cond == nil {
 			continue
@@ -1568,4 +1576,81 @@ func c08StrictUnionBranches(ctx *Ctx, r *Report) {
 	r.Count("strict decoders of unions of scalars", 1)
 	r.Check(underTest && strict, "skeleton/strict-union-branches-strict", "golang disjunction_of_scalars strict decoder: lists and maps of objects", token.NoPos, ts.file[name]+": a branch that is a list or map of objects goes through strict_unmarshal_field_type",
 		ts.file[name]+": every branch of the union is decoded with json.Unmarshal: for `source: string | [...#Item]` the elements of the list are never checked — undeclared fields, missing required fields and nulls are accepted inside them, while the same faults in a plain `[...#Item]` are rejected")
+}
+
+// c13NilTestExcludesConstantRefs: a reference to a member of an enum (`Kind & "a"`) is declared with the enum's type,
+// never as a pointer — also when the field is optional. The branch of a recursive Go template that handles "the value is
+// nullable" by comparing it with nil must not take such a type: its condition names IsConstantRef.
+func c13NilTestExcludesConstantRefs(ctx *Ctx, r *Report, ts *tmplSet, define string) {
+	tree := ts.trees[define]
+	if tree == nil {
+		r.Undecided("anchor lost: golang template %q", define)
+		return
+	}
+	var top *parse.IfNode
+	for _, n := range tree.Root.Nodes {
+		if in, ok := n.(*parse.IfNode); ok {
+			top = in
+			break
+		}
+	}
+	if top == nil {
+		r.Undecided("anchor changed: golang template %q has no dispatch", define)
+		return
+	}
+	n := 0
+	for _, b := range ifChain(top) {
+		if b.cond == nil {
+			continue
+		}
+		cond := b.cond.String()
+		// the generic nullable branch: driven by the Nullable argument, not by what the type resolves to
+		if !strings.Contains(cond, ".Nullable") || strings.Contains(cond, "IsRef") || strings.Contains(cond, "resolve") {
+			continue
+		}
+		if !strings.Contains(tmplText(b.body), "nil") {
+			continue
+		}
+		n++
+		r.Check(strings.Contains(cond, "IsConstantRef"), "skeleton/nil-test-excludes-constant-ref", define+" nullable branch ("+cond+")", token.NoPos, ts.file[define]+": the branch comparing with nil does not take references to enum members",
+			ts.file[define]+": the nullable branch of "+define+" compares every nullable value with nil, references to an enum member included: `t?: #E & \"a\"` is declared `T E` and the generated method tests `resource.T == nil` — mismatched types E and untyped nil, the package does not compile")
+	}
+	r.Count("nullable branches of "+define, n)
+	r.Floor("nullable branches of "+define, 1)
+}
+
+// c13NumericUnionBranches: a union wrapper holds one pointer per branch. With two numeric branches (`int | float`) the
+// same number can sit in either: {"v":1} is decoded into Int64 and {"v":1.0} into Float64, and both are written `1`.
+// "Two values that encode to the same JSON are equal" then needs one of: the decoder puts a number in a branch chosen
+// by its value, the encoder tells the branches apart, or Equals compares across numeric branches. Whichever it is, it is
+// logic about numeric kinds in the templates of the union wrappers or in the equality template; none of them having any
+// is sufficient for the defect. (This is a coarse necessary condition: it says nothing on whether such logic is right.)
+func c13NumericUnionBranches(ctx *Ctx, r *Report, ts *tmplSet) {
+	numeric := regexp.MustCompile(`(?i)numeric|number|float|int64|integer`)
+	found := ""
+	examined := 0
+	for _, name := range ts.names() {
+		file := ts.file[name]
+		if !strings.Contains(file, "disjunction_of_scalars") && name != recEquality.define {
+			continue
+		}
+		examined++
+		text := tmplText(ts.trees[name].Root)
+		walkTmpl(ts.trees[name].Root, func(n parse.Node) bool {
+			if an, ok := n.(*parse.ActionNode); ok {
+				text += " " + an.String()
+			}
+			return true
+		})
+		if numeric.MatchString(text) {
+			found = file
+		}
+	}
+	if examined < 3 {
+		r.Undecided("anchor lost: templates of the scalar union wrappers / equality (%d found)", examined)
+		return
+	}
+	r.Count("templates deciding the branch, encoding and equality of scalar unions", examined)
+	r.Check(found != "", "skeleton/numeric-union-branches", "golang scalar union wrappers treat numeric branches", token.NoPos, "some template of the wrappers or of Equals looks at numeric kinds ("+found+")",
+		"neither the decoder, the encoder nor Equals of a union of scalars has any logic about numeric kinds: with `v: int | float`, {\"v\":1} is decoded into the Int64 branch and {\"v\":1.0} into the Float64 branch, both are encoded {\"v\":1}, and Equals — which compares branch by branch — says they differ")
 }
